@@ -74,7 +74,7 @@ Lemma pump_once p :
              p_after p' = S (p_after p).
 Proof.
   destruct p as [i b c d w r e dr a]. cbn. intros -> -> -> -> W.
-  unfold pump, prun, pstep, dstep, wkstep, d_recv, d_handoff, set_w, set_d. cbn. rewrite W. cbn.
+  unfold pump, prun, pstep, dstep, wkstep, d_recv, d_handoff, set_w, set_d, busy_of. cbn. rewrite W. cbn.
   eexists. split; [reflexivity|]. cbn. repeat split; auto.
 Qed.
 
